@@ -13,6 +13,7 @@ mod object;
 mod nav;
 mod compare;
 mod c03;
+mod canon;
 
 use common::Args;
 
@@ -34,6 +35,8 @@ fn main() {
         "c11" => (nav::generate, nav::eval),
         "c14" => (compare::generate, compare::eval),
         "c03" => (c03::generate, c03::eval),
+        "c09" => (canon::generate_c09, canon::eval_c09),
+        "c10" => (canon::generate_c10, canon::eval_c10),
         other => {
             eprintln!("unknown family {other}");
             std::process::exit(2);
